@@ -53,11 +53,14 @@ type half struct {
 	wfail      bool // writes in this direction fail (the peer's RST reached the writer), reads are unaffected
 	auto       bool
 	limit      int // >0: Write blocks while pendingLen+len(readable) >= limit (back pressure)
-	wire       []byte
-	events     []WriteEvent
-	tap        bool
-	readTotal  int64
-	readTimes  []WriteEvent // (offset,len,time) of successful reads
+	// partial (with limit > 0): like a TCP socket whose send buffer is full, a Write hands over what fits and waits with
+	// the rest; a write deadline that passes meanwhile returns the number of bytes already accepted and a timeout
+	partial   bool
+	wire      []byte
+	events    []WriteEvent
+	tap       bool
+	readTotal int64
+	readTimes []WriteEvent // (offset,len,time) of successful reads
 	// datagram mode: message boundaries are kept (one Write = one Read, empty messages included, excess
 	// bytes of a message that does not fit the reader's buffer are dropped like UDP does)
 	dgram bool
@@ -85,6 +88,7 @@ type End struct {
 	rdeadline  time.Time
 	rtimer     *time.Timer
 	wdeadline  time.Time
+	writing    bool // a partial-mode Write is in progress on this end
 	wtimer     *time.Timer
 	local      net.Addr
 	remote     net.Addr
@@ -185,6 +189,58 @@ func (e *End) Write(p []byte) (int, error) {
 		for !l.released[d][tk] && !e.closed && !h.reset {
 			l.cond.Wait()
 		}
+	}
+	if h.partial && h.limit > 0 && !h.dgram {
+		// like net.Conn, whose Write holds the descriptor's write lock until everything is written: concurrent Writes
+		// on one end never interleave
+		for e.writing && !e.closed && !h.reset && !h.wfail {
+			l.cond.Wait()
+		}
+		e.writing = true
+		defer func() {
+			e.writing = false
+			l.cond.Broadcast()
+		}()
+		written := 0
+		for written < len(p) {
+			if e.closed {
+				return written, net.ErrClosed
+			}
+			if h.reset || h.wfail {
+				return written, ErrReset
+			}
+			if !e.wdeadline.IsZero() && !time.Now().Before(e.wdeadline) {
+				return written, timeoutError{}
+			}
+			room := h.limit - h.pendingLen - len(h.readable)
+			if h.limit <= 0 || e.peer().closed {
+				room = len(p) - written
+			}
+			if room <= 0 {
+				l.cond.Wait()
+				continue
+			}
+			k := len(p) - written
+			if k > room {
+				k = room
+			}
+			c := append([]byte(nil), p[written:written+k]...)
+			if h.tap {
+				h.events = append(h.events, WriteEvent{Off: int64(len(h.wire)), Len: len(c), Time: time.Now()})
+				h.wire = append(h.wire, c...)
+			}
+			if !e.peer().closed {
+				if h.auto {
+					h.readable = append(h.readable, c...)
+				} else {
+					h.pending = append(h.pending, c)
+					h.pendingLen += len(c)
+				}
+			}
+			written += k
+			l.cond.Broadcast()
+		}
+		return written, nil
 	}
 	for {
 		if e.closed {
@@ -325,6 +381,15 @@ func (l *Link) SetAuto(d Dir, auto bool) {
 		}
 		h.pending, h.pendingLen = nil, 0
 	}
+	l.cond.Broadcast()
+	l.mu.Unlock()
+}
+
+// SetPartialWrites makes direction d behave like a TCP socket with a full send buffer once its limit is reached: a
+// Write hands over what fits and blocks with the rest (see half.partial).
+func (l *Link) SetPartialWrites(d Dir, on bool) {
+	l.mu.Lock()
+	l.h[d].partial = on
 	l.cond.Broadcast()
 	l.mu.Unlock()
 }
